@@ -125,11 +125,11 @@ def check_url(s):
             if r_host.isascii() and "%" not in r_host:
                 if got_host != r_host.lower():
                     return f"host disagrees with RFC 3986 reading: urllib3 {u.host!r}, reference {r_host!r}"
-            if r_port is not None:
+            if r_port is not None and (r_port == "" or (r_port.isascii() and r_port.isdigit())):
                 want = int(r_port) if r_port != "" else None
                 if u.port != want:
                     return f"port disagrees with RFC 3986 reading: urllib3 {u.port!r}, reference {r_port!r}"
-            elif u.port is not None:
+            elif r_port is None and u.port is not None:
                 return f"port {u.port!r} where the reference reading has none"
             if (r_user is None) != (u.auth is None):
                 return f"userinfo disagrees: urllib3 {u.auth!r}, reference {r_user!r}"
